@@ -5,6 +5,7 @@
 //!
 //! The harness only measures and converts units; every law that is checked lives in TLA+.
 
+mod areas;
 mod geom;
 mod hist;
 mod obs;
@@ -99,6 +100,12 @@ fn main() {
         "debug-state" => geom::debug_state(m.get("line").expect("--line")),
         "pairs" => geom::pairs(m.get("in").expect("--in"), m.get("out").expect("--out")),
         "c01-histories" => hist::c01_histories(
+            m.get("out").expect("--out"),
+            m.get("tier").map(|t| t == "thorough").unwrap_or(false),
+            m.get("seed").and_then(|s| s.parse().ok()).unwrap_or(1),
+        ),
+        "areas" => areas::areas(m.get("in").expect("--in"), m.get("out").expect("--out")),
+        "c04-histories" => hist::c04_histories(
             m.get("out").expect("--out"),
             m.get("tier").map(|t| t == "thorough").unwrap_or(false),
             m.get("seed").and_then(|s| s.parse().ok()).unwrap_or(1),
